@@ -1241,6 +1241,13 @@ def fam_rayon_mmap(rng):
     for nt in ("1", "2"):
         for s in base:
             out.append(dict(s, env={"RAYON_NUM_THREADS": nt}))
+    # pool sizes that are not powers of two, with more than <threads> MiB in one call (a split size derived from the
+    # pool size would stop being a power of two)
+    # (the largest power of two <= n must exceed <threads> MiB)
+    for nt, n in (("3", 4 * 1048576 + 1025), ("5", 8 * 1048576 + 1), ("6", 8 * 1048576 + 70000), ("7", 9 * 1048576)):
+        for via in ("rayon", "mmap_rayon"):
+            out.append(_with({"kind": "incremental", "input": _inp(n), "splits": [], "via": via,
+                              "xof": {"seek": 0, "len": 70}, "env": {"RAYON_NUM_THREADS": nt}}, MODES[int(nt) % 3]))
     return out
 
 
